@@ -18,7 +18,7 @@ from .. import aprogs, asyncrun, progs
 PID = 'C08'
 LEVEL = 'exploration'
 RULE = ('source(s)->[map]->timed_window|timed_window_unique|partition(timeout)->[flatten]->consumer; intervals/timeouts '
-        '{.5,1,2}, n in {1,2,3,4}, keys mod2/mod3/ident; 1-3 producers with gaps on the same grid as the intervals so '
+        '{.5,1,2} (partition also timeout=0), n in {1,2,3,4}, keys mod2/mod3/ident; 1-3 producers with gaps on the same grid as the intervals so '
         'that arrivals coincide with ticks; consumers sync/coroutine/Future with service times {0..2} (backpressure); '
         'non-trivial = >=1 non-empty batch and >=3 arrivals; distinct by hash(case)')
 REQUIRED = ['batchers_checked', 'timeout_partitions_checked', 'deadlines_checked']
@@ -51,6 +51,8 @@ def one_case(rng, tier):
         nodes.append({'id': 'tw', 'op': 'timed_window_unique', 'ups': [last], 'interval': T,
                       'key': rng.choice(['ident', 'mod2', 'mod3']), 'keep': rng.choice(['first', 'last'])})
     else:
+        if rng.random() < 0.12:
+            T = 0               # legal boundary: flush a partial partition at once (next loop turn)
         nodes.append({'id': 'tw', 'op': 'partition', 'ups': [last], 'n': rng.choice([1, 2, 2, 3, 4]), 'timeout': T,
                       'key': rng.choice([None, None, 'mod2', 'mod3', 'ident'])})
     last = 'tw'
